@@ -1232,7 +1232,8 @@ static void uv__stream_io(uv_loop_t* loop, uv__io_t* w, unsigned int events) {
     uv__write_callbacks(stream);
 
     /* Write queue drained. */
-    if (uv__queue_empty(&stream->write_queue))
+    if (uv__queue_empty(&stream->write_queue) &&
+        uv__queue_empty(&stream->write_completed_queue))
       uv__drain(stream);
   }
 }
